@@ -25,7 +25,8 @@ func ConcatArray(arr *SexpArray, rest []Sexp) (Sexp, error) {
 		return SexpNull, fmt.Errorf("ConcatArray called with nil arr")
 	}
 	var res SexpArray
-	res.Val = arr.Val
+	// copy: see AppendFunction
+	res.Val = append([]Sexp(nil), arr.Val...)
 	for i, x := range rest {
 		switch t := x.(type) {
 		case *SexpArray:
